@@ -216,10 +216,10 @@ fn run_history<F: Flt>(
 pub fn run(ctx: &Ctx) -> Report {
     let dbg = ctx.is_dbg();
     let n_items = match (ctx.tier, dbg) {
-        (Tier::Quick, false) => 1600,
-        (Tier::Thorough, false) => 40_000,
-        (Tier::Quick, true) => 160,
-        (Tier::Thorough, true) => 1600,
+        (Tier::Quick, false) => 6000,
+        (Tier::Thorough, false) => 150_000,
+        (Tier::Quick, true) => 400,
+        (Tier::Thorough, true) => 6000,
     };
     let mut rep = par_run(ctx, n_items, |i, rep| {
         let mut r = FastRng::new(ctx.sub_seed(&[i as u64, if dbg { 1 } else { 0 }]));
